@@ -9,11 +9,14 @@ SpecAfter(d, ops, k) ==
   ELSE IF ops[k] >= 256 THEN SpecAfter(ResetD(d), ops, k + 1)
        ELSE SpecAfter(Step(d, ops[k]).d, ops, k + 1)
 
-End(fe, T) == IF fe = 1 THEN <<<<T, 6, 0, 0>>>> ELSE IF fe = 7 THEN <<<<T, 10>>>> ELSE <<>>
+\* fe 1 push decoder with a growable buffer, 2 push decoder with ArrayBuf<r.cap>, 3 decode(), 7 SmlReader
+End(fe, T) == IF fe \in {1, 2} THEN <<<<T, 6, 0, 0>>>> ELSE IF fe = 7 THEN <<<<T, 10>>>> ELSE <<>>
+CapOf(r) == IF "cap" \in DOMAIN r THEN r.cap ELSE CapInf
 P(fe, x) == IF fe = 3 THEN -1 ELSE x
 
 NoiseApplies(r) ==
-  /\ IsIdle(SpecAfter(InitDec(CapInf), r.h, 1))
+  /\ IsIdle(SpecAfter(InitDec(CapOf(r)), r.h, 1))
+  /\ Len(r.m) <= CapOf(r)
   /\ Occurrences(StartSeq, r.g \o StartSeq) = {Len(r.g)}
 NoiseExpected(r) ==
   LET G == Len(r.g) T == G + FrameLen(r.m) IN
